@@ -41,7 +41,8 @@ Plus(a, b) == IF a = Inf \/ b = Inf THEN Inf ELSE a + b
 NoDl == -1           \* deadline() when nothing is outstanding (the code returns 0, an absolute time long past)
 Idle == [op |-> "idle", e |-> "", a |-> "", to |-> 0, name |-> "", st |-> "idle", bvt |-> 0, dn |-> {},
          bres |-> FALSE, ires |-> 0, sres |-> {},
-         lo |-> 0, hi |-> 0, shi |-> 0, sfree |-> -1, sawQuiet |-> FALSE, sawEmpty |-> FALSE, ovl |-> FALSE, half |-> FALSE]
+         lo |-> 0, hi |-> 0, shi |-> 0, sfree |-> -1, sawQuiet |-> FALSE, sawEmpty |-> FALSE, sawFlush |-> FALSE,
+         ovl |-> FALSE, half |-> FALSE]
 
 Mutators == {"new", "set", "clear", "queue"}
 Readers == {"wait", "wfor", "deadline"}          \* calls that look at the whole set of sub-events
@@ -62,6 +63,7 @@ XInit == /\ defname = ""
 Follow(c, p2, f2, hiT) ==
    IF c.op \in Readers /\ c.st \in {"called", "snapped"}
    THEN [c EXCEPT !.sawEmpty = @ \/ p2 = {},
+                  !.sawFlush = @ \/ (p2 = {} /\ f2 # None),
                   \* since when could a wait() have looked at the events (nobody flushing = the lock is free)?
                   !.sfree = IF c.st # "called" THEN @ ELSE IF f2 # None THEN -1 ELSE IF @ = -1 THEN hiT ELSE @,
                   !.sawQuiet = @ \/ (c.st = "snapped" /\ p2 = {} /\ f2 = None),
@@ -79,6 +81,7 @@ Begin(th, vt, op, e, a, to, name) ==
         IF x = th
         THEN [Idle EXCEPT !.op = op, !.e = e, !.a = a, !.to = to, !.name = name, !.st = "called", !.bvt = vt,
                           !.sawEmpty = (pending = {}), !.dn = {defname},
+                          !.sawFlush = (pending = {} /\ flusher # None),
                           !.sfree = IF flusher = None THEN vt ELSE -1,
                           !.half = \E y \in Threads \ {th} : call[y].op = "new" /\ call[y].st # "idle"]
         ELSE IF op = "new" /\ call[x].op \in Readers /\ call[x].st \in {"called", "snapped"}
@@ -182,7 +185,8 @@ Done(th) == /\ call' = [call EXCEPT ![th] = Idle]
 RetPlain(th) ==        \* set / clear / queue return only when their flush is over
    /\ call[th].op \in {"set", "clear", "queue", "setname"} /\ call[th].st = "done" /\ flusher # th /\ Done(th)
 RetNew(th, d) == /\ call[th].op = "new" /\ call[th].st = "done" /\ d = call[th].ires /\ Done(th)
-WaitTrueOK(c, vt) == c.sawQuiet /\ (Quiet => vt <= Max(qsince, c.shi) + Slack)
+WaitTrueOK(c, vt) == /\ c.sawQuiet /\ (Quiet => vt <= Max(qsince, c.shi) + Slack)
+                     /\ c.lo # Inf => vt <= Max(c.hi, c.shi) + Slack           \* woken before its limit
 WaitFalseOK(c, vt) == /\ c.lo # Inf /\ c.lo <= vt /\ vt <= Max(c.hi, c.shi) + Slack     \* (a limit already past: at once)
                       /\ ~(Quiet /\ qsince + Slack < vt)       \* it was woken up: no lost wake-up
 RetWait(th, res, vt) ==
